@@ -13,16 +13,21 @@ import sys
 wt, sid, prop, what, needs, confirm = sys.argv[1:7]
 checks = sys.argv[7:]
 V = "/verif"
-assert subprocess.run(["git", "-C", "/repo", "status", "--porcelain"], capture_output=True, text=True).stdout == "", "/repo dirty"
+MUT = os.environ.get("MUTREPO", "/root/work/mutrepo")      # a scratch worktree of /repo: /repo itself is never patched
+if not os.path.isdir(MUT):
+    subprocess.run(["git", "-C", "/repo", "worktree", "add", "-q", "--detach", MUT, "HEAD"], check=True)
+subprocess.run(["git", "-C", MUT, "checkout", "-q", "--detach", subprocess.run(["git", "-C", "/repo", "rev-parse", "HEAD"], capture_output=True, text=True).stdout.strip()], check=True)
+subprocess.run(["git", "-C", MUT, "checkout", "--", "."], check=True)
+ENV = dict(os.environ, SCODA_REPO=MUT)
 dst = f"{V}/seeded/{sid}"
 os.makedirs(dst, exist_ok=True)
 shutil.copy(f"{wt}/patch.diff", f"{dst}/patch.diff")
 shutil.copy(f"{wt}/demo.py", f"{dst}/demo.py")
-subprocess.run(["git", "-C", "/repo", "apply", f"{dst}/patch.diff"], check=True)
+subprocess.run(["git", "-C", MUT, "apply", f"{dst}/patch.diff"], check=True)
 detected = []
 try:
     for c in checks:
-        out = subprocess.run([f"{V}/check", c], cwd=V, capture_output=True, text=True).stdout
+        out = subprocess.run([f"{V}/check", c], cwd=V, capture_output=True, text=True, env=ENV).stdout
         m = re.search(r"^VIOLATION property=(\S+) replay=(\S+)(.*)$", out, flags=re.M)
         if not m:
             detected.append({"check": f"./check {c}", "tier": "quick", "result": "not reported"})
@@ -39,7 +44,8 @@ try:
                 with open(f"{V}/corpus/{c}/{h}.json", "w") as f:
                     json.dump(entry, f, indent=1)
 finally:
-    subprocess.run(["git", "-C", "/repo", "checkout", "--", "."], check=True)
+    subprocess.run(["git", "-C", MUT, "checkout", "--", "."], check=True)
+    subprocess.run(["/venv/bin/python", f"{V}/tools/gen_lean.py"], capture_output=True)      # Gen/*.lean back to /repo's source
 # the corpus entries just added must be quiet on the unchanged tree (a shrunk input may have left the property's domain)
 for c in checks:
     r = subprocess.run([f"{V}/check", c], cwd=V, capture_output=True, text=True)
